@@ -50,6 +50,15 @@ def run(ctx):
             camp.sh.maybe_flush()
             if i < 3:
                 ctx.sample({"program": prog})
+        # alternatives and elements on a streaming bit-level region that runs out in the middle of one: nothing of it is consumed
+        for prog in (A.Bitwise(A.GreedyRange(A.BitsInteger(5))), A.Bitwise(A.Struct(A.Renamed("a", A.Alias("Nibble")), A.Renamed("o", A.Optional(A.BitsInteger(12))), A.Renamed("r", A.GreedyBytes))),
+                     A.BitsSwapped(A.GreedyRange(A.Alias("Int24ub"))), A.Bitwise(A.Sequence(A.Select(A.BitsInteger(20), A.BitsInteger(6)), A.GreedyBytes)),
+                     A.Bitwise(A.GreedyRange(A.Select(A.Sequence(A.Const(b"\x01"), A.BitsInteger(9)), A.BitsInteger(3))))):
+            con = campaign.realizable(prog)
+            for n in range(0, 5):
+                for data in ([bytes(t) for t in itertools.product([0, 0x81, 0xff], repeat=n)] if n <= 2 else [gen.rbytes(rng, n) for _ in range(6)]):
+                    camp.parse(prog, con, data, 0, {})
+        camp.sh.maybe_flush()
         # an alternative that fails only after it has written something, followed by a shorter successful one
         I32, I16, B = A.Alias("Int32ub"), A.Alias("Int16ub"), A.Alias("Byte")
         for prog, vals in ((A.Select(A.Sequence(I32, B), A.Sequence(B, I16)), [[1, 300], [1, 2], [256, 1], [70000, 1]]),
